@@ -37,6 +37,7 @@ type Program struct {
 	cg         *CallGraph
 	roles      *Roles
 	takenCache map[*ssa.Function]bool
+	reqTaint   map[ssa.Value]bool
 }
 
 type loadOptions struct {
